@@ -274,6 +274,9 @@ class Check:
 
     def finish(self):
         self.cov["distinct_nontrivial"] = max(self.cov["distinct_nontrivial"], len(self.distinct))
+        if not self.cov["samples"] and self.violations:
+            # a run that stopped at its first violations has examined at least those inputs
+            self.cov["samples"].append({"violating_input": str(self.violations[0])[:600]})
         ev = {"property_id": self.prop, "tier": self.tier, "seed": self.seed, "level": self.level,
               "coverage": self.cov, "assumptions": self.assumptions, "wall_s": round(time.time() - self.t0, 1),
               "violations": len(self.violations), "repo_head": repo_head(),
